@@ -191,9 +191,13 @@ def check(spec, ctx):
     # shift invariance
     if e1[0] > 0 and e2[0] > 0 and b1[0] - tb > 0 and b2[0] - tb > 0:
         dt = spec["dt"]
-        h1 = data.geometry_validate({"type": k1, "coordinates": shift_spec_time(k1, g1.coordinates, dt)}, mode="dict")
-        h2 = data.geometry_validate({"type": k2, "coordinates": shift_spec_time(k2, g2.coordinates, dt)}, mode="dict")
-        a_s = aff(h1, h2)
+        try:
+            h1 = data.geometry_validate({"type": k1, "coordinates": shift_spec_time(k1, g1.coordinates, dt)}, mode="dict")
+            h2 = data.geometry_validate({"type": k2, "coordinates": shift_spec_time(k2, g2.coordinates, dt)}, mode="dict")
+        except ValueError:
+            h1 = None  # adding dt merged two nearly equal times of a multi-line: the shifted geometry does not exist
+            ctx.label("shift_collapses_line_skipped")
+        a_s = aff(h1, h2) if h1 is not None else a12
         ctx.label("shift_checked")
         if abs(a_s - a12) > 1e-9:
             ctx.fail(f"affinity changes under a common time shift {dt}: {a12} -> {a_s}", spec, a_s, a12, kind="shift")
